@@ -120,6 +120,17 @@ def EarlyOK (x : LStage) : Prop :=
 instance (x : LStage) : Decidable (EarlyOK x) := by
   unfold EarlyOK; cases x.cfg.kind <;> simp only <;> exact inferInstance
 
+/-- the general form of the never-early hypothesis, also for non-linear phase (where the kernel's peak is not centred
+    and `b` may be negative): the dft shape clauses, and the last sample an output reads lies at or beyond the input
+    instant of that output: `0 ≤ b + margin` -/
+def EarlyGen (x : LStage) : Prop :=
+  (x.cfg.kind = .dft → DftShapeOK x.cfg x.s0) ∧ 0 ≤ (tstage x).b + margin x
+
+instance (x : LStage) : Decidable (EarlyGen x) := by unfold EarlyGen; exact inferInstance
+
+def PlanEarlyGen (l : List LStage) : Prop := ∀ x ∈ l, EarlyGen x
+instance (l : List LStage) : Decidable (PlanEarlyGen l) := by unfold PlanEarlyGen; exact inferInstance
+
 def PlanEarlyOK (l : List LStage) : Prop := ∀ x ∈ l, EarlyOK x
 instance (l : List LStage) : Decidable (PlanEarlyOK l) := by unfold PlanEarlyOK; exact inferInstance
 
